@@ -10,7 +10,8 @@ ordering by true edit distance — value-level."""
 import re as pyre
 
 from engine.mir import E, apath, strip_refs, is_const, const_val, callee_name, self_path
-from engine.analyses import (peel_conv, guards_of, contains_call, format_parts, ModSets, VecBounds, switches_on, leaf_assign, PredEval)
+from engine.analyses import (peel_conv, guards_of, contains_call, format_parts, ModSets, VecBounds, switches_on, leaf_assign, PredEval,
+                             filtered_chars_loop, eval_char_guard)
 from engine.report import site_of
 from engine import tables
 from . import common, builders, c17, c18, classes
@@ -253,6 +254,13 @@ def run(ctx):
                     if f.k == "agg" and str(f.a[0]).startswith("closure:"):
                         clo = f.a[0][8:]
                         cleaner = clo.rsplit("::{closure", 1)[0]
+                loop_filter = None
+                if cleaner is None and word.k == "call" and isinstance(word.a[2], int) and sb.blocks[word.a[2]]["term"]["k"] == "call":
+                    # the same cleaning written as a loop: `for c in word.chars() { if keep(c) { cleaned.push(c) } }`
+                    loop_filter = filtered_chars_loop(sb, sb.blocks[word.a[2]]["term"]["dest"]["l"])
+                    if loop_filter is not None:
+                        word_src = peel_conv(loop_filter[0])
+                        cleaner = (sb.blocks[word.a[2]].get("inl") or search)
                 nn = strip_refs(n_[1])
                 n_ok = nn.k in ("phi", "const") and all(is_const(x, "int") and 0 <= const_val(x) <= 8 for x in (nn.a[0] if nn.k == "phi" else [nn]))
                 if l0[1] != "^" or l2[1] != "}$":
@@ -288,6 +296,17 @@ def run(ctx):
                             (kept if r else removed).add(c)
                         if not okp:
                             removed = None
+                    elif loop_filter is not None:
+                        pe = PredEval(prog)
+                        dom = [chr(c) for c in range(0x20, 0x7f)] + ["‌", "‍", "।", "॥"] + [chr(c) for c in range(0x0980, 0x0A00)]
+                        removed = set()
+                        for c in dom:
+                            vs = [eval_char_guard(pe, d, loop_filter[1], ord(c)) for (d, pol) in loop_filter[2]]
+                            if any(v is None for v in vs):
+                                removed = None
+                                break
+                            if not all(v == pol for v, (d, pol) in zip(vs, loop_filter[2])):
+                                removed.add(c)
                     if removed is None:
                         r5.undecidable("clean", "cannot evaluate the cleaning filter as a set", common.fn_line(prog, cleaner))
                     else:
